@@ -28,6 +28,10 @@ CodesEnable3 == {"c1", "c5", "unused_ignore"}
 CodesCatch == {"c4", "unused_ignore"}
 CodesAll == RCodes \cup MetaCodes
 NoCodes == {}
+DiagsStruct == { << >>, <<"c1">>, <<"c6">>, <<"c1", "c6">> }
+IgnsStruct == {"bare", "c1"}
+CodesStruct == {"unused_ignore"}
+FlagsEnable == {"", "e"}
 FlagsNoBoth == {"", "e", "d"}
 NoPrefix == { << >> }
 PLine(shape) == [kind |-> "code", diags |-> << >>, ign |-> "none", shape |-> shape]
